@@ -397,6 +397,7 @@ package eval
 
 //@ func ValueToEntity
 //@   props C01
+//@   pure
 //@   results r, err
 //@   ensures (v is types.EntityUID) ? (err == nil && r == v.(types.EntityUID)) : (err != nil && errIs(err, ErrType))
 
@@ -693,12 +694,28 @@ package eval
 //@   ensures okEntity(n.lhs, env) ==> (err == nil && v == types.Boolean(vEntity(n.lhs, env).Type == n.rhs))
 
 // ---- entity hierarchy: in / is in ----
+// The error reported for a set with non-entity members is the conversion error of such a member. It is a
+// function of the set only if all such members give the same error (C14): inSetErr names that error.
+//@ spec func uniformSetErr(s types.Set) bool = forall a types.Value, b types.Value :: (iter_Set_All(s, a) && iter_Set_All(s, b) && !(a is types.EntityUID) && !(b is types.EntityUID)) ==> ValueToEntity#1(a) == ValueToEntity#1(b)
+//@ spec func inSetErr(s types.Set) error
+//@ axiom in_set_err: forall s types.Set, x types.Value :: { iter_Set_All(s, x) } (uniformSetErr(s) && iter_Set_All(s, x) && !(x is types.EntityUID)) ==> inSetErr(s) == ValueToEntity#1(x)
 //@ func doInEval
-//@   props C01 C03
+//@   props C01 C03 C14
 //@   pure
 //@   results v, err
 //@   ensures (rhs is types.EntityUID) ==> err == nil && v == types.Boolean(reach(env, lhs, rhs.(types.EntityUID)))
 //@   ensures (!(rhs is types.EntityUID) && !(rhs is types.Set)) ==> err != nil && errIs(err, ErrType)
+// `e in [..]`: every member must be an entity (whatever the answer would be), then some member is reachable
+//@   dispatch Container.Contains
+//@   ensures set_type: ((rhs is types.Set) && (exists x types.Value :: iter_Set_All(rhs.(types.Set), x) && !(x is types.EntityUID))) ==> (err != nil && errIs(err, ErrType))
+//@   ensures set_err_deterministic: ((rhs is types.Set) && (exists x types.Value :: iter_Set_All(rhs.(types.Set), x) && !(x is types.EntityUID))) ==> err == inSetErr(rhs.(types.Set))
+//@   ensures set_ok: ((rhs is types.Set) && (forall x types.Value :: iter_Set_All(rhs.(types.Set), x) ==> (x is types.EntityUID))) ==> err == nil
+//@   ensures set_sound: ((rhs is types.Set) && err == nil && v == types.Value(types.Boolean(true))) ==> (exists t types.EntityUID :: iter_Set_All(rhs.(types.Set), types.Value(t)) && reach(env, lhs, t))
+//@   ensures set_complete: ((rhs is types.Set) && err == nil && v != types.Value(types.Boolean(true))) ==> (v == types.Value(types.Boolean(false)) && (forall t types.EntityUID :: { reach(env, lhs, t) } iter_Set_All(rhs.(types.Set), types.Value(t)) ==> !reach(env, lhs, t)))
+//@   loop 1
+//@     invariant query != nil
+//@     invariant forall x types.Value :: { $done[x] } $done[x] ==> ((x is types.EntityUID) && has(query.m, x.(types.EntityUID)))
+//@     invariant forall t types.EntityUID :: { has(query.m, t) } has(query.m, t) ==> $done[types.Value(t)]
 
 //@ func (inEval) Eval
 //@   props C01
